@@ -16,6 +16,10 @@ A2_LOW_FORMS = ['amount < 100', 'amount <= 99.5', '100 > amount', 'not amount >=
 A2_LOW_CSV = ['[amount<100]', '[amount<=99.5]', '[amount<100]', '[amount<100]', '[amount<100][amount<=120]',
               '[amount<100]', '[amount<=99.5]', '[amount<100]']
 LOW_AMOUNTS = [0.0, 0.0, 50.0, -20.0]
+# the same atom read off another primitive of the language: the transaction's date is chosen so that the date part says what
+# the amount says (every primitive - amount, weekday, day, year ... - is a property of the transaction being classified)
+A2_DATE_FORMS = {'weekday': ['weekday >= 5', 'weekday > 4', '5 <= weekday'], 'day': ['day > 20', 'day >= 21', '20 < day'],
+                 'year': ['year == 2024', 'year < 2025', '2025 > year']}
 AE_FORMS = ['field.kind == "ach"', 'contains(field.kind, "AC")', 'field.kind.lower() == "ach"',
             '"ACH" in field.kind', 'startswith(field.kind, "ach")']
 # the captured column may be called anything the format parser accepts - including the names of the date parts, which are
@@ -49,6 +53,8 @@ class Variant:
             self.fname = 'kind'
             self.interleave = False
             self.xform = False
+            self.dupname = False
+            self.a2src = None
         else:
             # the file carries two field transforms (the first cannot be evaluated and is skipped on its own; the second
             # strips a wallet prefix every description then carries) and atom A1 is written so that it NEEDS the stripping
@@ -67,6 +73,12 @@ class Variant:
             self.neg_amount = self.a2 == 2 and rnd.random() < 0.5
             # A2 as "small amount": (form index, amount of the transactions where A2 holds)
             self.low = (rnd.randrange(len(A2_LOW_FORMS)), rnd.choice(LOW_AMOUNTS)) if not self.neg_amount and rnd.random() < 0.4 else None
+            # every rule block of the file carries the SAME [Name] (legitimate: several patterns of one merchant); a rule
+            # is identified by its position in the file, not by its name
+            # (derived from the other choices instead of drawn, so that the stream of the other choices is what it was)
+            self.dupname = (self.a1 * 7 + self.a2 * 5 + self.ae * 3 + self.dyn * 11 + self.tag) % 4 == 0
+            self.a2src = None if (self.low or self.neg_amount) else {0: 'weekday', 1: 'day', 2: 'year'}.get(
+                (self.a1 * 3 + self.a2 * 5 + self.ae * 7 + self.dyn + self.tag * 2) % 7)
 
     def describe(self):
         return dict(self.__dict__)
@@ -76,6 +88,8 @@ def atom(a, v):
     if a == 'A1':
         return 'startswith("ALFA")' if v.xform else A1_FORMS[v.a1]
     if a == 'A2':
+        if getattr(v, 'a2src', None):
+            return A2_DATE_FORMS[v.a2src][v.a2 % 3]
         return A2_LOW_FORMS[v.low[0]] if v.low else A2_FORMS[v.a2]
     if a == 'AE':
         return AE_FORMS[v.ae].replace('field.kind', 'field.' + v.fname)
@@ -101,12 +115,14 @@ def cond(c, v, top=True):
     return s
 
 
-def rule_name(r):
+def rule_name(r, v=None):
+    if v is not None and getattr(v, 'dupname', False):
+        return 'Shop'
     return 'R%d' % r['id']
 
 
-def expected_merchant(r):
-    return MERCH[r['m']] if r['m'] else rule_name(r)
+def expected_merchant(r, v=None):
+    return MERCH[r['m']] if r['m'] else rule_name(r, v)
 
 
 def shape_expr(r, v=None):
@@ -125,7 +141,7 @@ def shape_expr(r, v=None):
 
 
 def rule_text(r, v, priority=None):
-    lines = ['[%s]' % rule_name(r)]
+    lines = ['[%s]' % rule_name(r, v)]
     props = []
     for l in r['lets']:
         props.append('let: %s = %s' % (l['n'], cond(l['c'], v)))
@@ -163,6 +179,7 @@ def file_text(f, v, transform=False):
         out.append('%s = %s' % (name, cond(g['c'], v)))
     if transform or v.xform:
         out.append('field.memo = trim(field.nosuchcolumn)')
+        out.append('field.payee = extract(field.description, "([A-Z]+)")')      # (a transaction may have no `field` to store it in)
         out.append('field.description = regex_replace(field.description, "^APLPAY\\\\s+", "")')
     for r in f['rules']:
         out.append('')
@@ -199,7 +216,15 @@ def txn(t, v, prefix=False, extra_token=''):
     elif t['dyn'] == 'empty':
         field['proj'] = '' if v.tag % 2 == 0 else '   '
     month = 12 if tv.get('A3') == 'T' else 3
-    return {'description': desc, 'amount': amount, 'date': datetime.date(2025, month, 14),
+    date = datetime.date(2025, month, 14)
+    src = getattr(v, 'a2src', None)
+    if src == 'weekday':
+        date = next(datetime.date(2025, month, d) for d in range(8, 15) if (datetime.date(2025, month, d).weekday() >= 5) == (tv['A2'] == 'T'))
+    elif src == 'day':
+        date = datetime.date(2025, month, 25 if tv['A2'] == 'T' else 5)
+    elif src == 'year':
+        date = datetime.date(2024 if tv['A2'] == 'T' else 2025, month, 14)
+    return {'description': desc, 'amount': amount, 'date': date,
             'field': field if field else None, 'source': 'Card', 'location': None}
 
 
@@ -229,5 +254,5 @@ def csv_text(f, v):
         else:
             pat = 'ALFA' + (A2_LOW_CSV[v.low[0]] if v.low else '[amount>100]')
         tags = '|'.join(TAGS[t][v.tag].strip() for t in sorted(r['tags']))
-        lines.append('%s,%s,%s,%s,%s' % (pat, rule_name(r), CATS.get(r['cat'], ''), SUBS.get(r['sub'], ''), tags))
+        lines.append('%s,%s,%s,%s,%s' % (pat, rule_name(r, v), CATS.get(r['cat'], ''), SUBS.get(r['sub'], ''), tags))
     return '\n'.join(lines) + '\n'
